@@ -1,6 +1,7 @@
 (* C18 The syn 1 and syn 2 back-ends behave identically (the cfg-split code; everything else is one source: see DESIGN.md). *)
 From Coq Require Import List String Ascii Bool.
 From O2o.Model Require Import Tok Syn Attr Ast.
+From O2o.Gen Require Import SynIdents.
 From O2o.Lemmas Require Import Backends.
 Import ListNotations.
 
@@ -16,3 +17,10 @@ Print Assumptions C18_extract_accepts.
 Theorem C18_idents : forall s, is_plain_ident S1 s <> is_plain_ident S2 s -> str_in s keywords_s2_only = true.
 Proof. exact ident_classes_differ_only_on. Qed.
 Print Assumptions C18_idents.
+
+(* the two identifier classes of the model are exactly the accept_as_ident functions of the two syn versions /repo/Cargo.lock
+   pins; the lists are regenerated from the vendored syn sources on every run *)
+Theorem C18_ident_classes_are_syn_s : forall s,
+    is_plain_ident S1 s = negb (str_in s syn1_refused_idents) /\ is_plain_ident S2 s = negb (str_in s syn2_refused_idents).
+Proof. exact ident_classes_are_syn_s. Qed.
+Print Assumptions C18_ident_classes_are_syn_s.
